@@ -105,6 +105,17 @@ def run_refine_dispatch(ctx):
         except Exception as e:  # noqa
             got = e
         ctx.oblige(TRUE(got is marks["newton"]), "a point outside the equilibrium's (R,Z) box is refined too (not returned as it came): (%s, %s)" % (P_out.R, P_out.Z))
+    # the surface psi = 0 (flux measured from the separatrix, or a psi grid value that happens to be
+    # 0) is a flux surface like any other: only "no psival at all" switches refinement off
+    import numpy as _np
+
+    for pv in (0.0, -0.0, 0, _np.float64(0.0), _np.zeros(1)[0], -1.0, 1e-300, -1e-300):
+        c.psival = pv
+        try:
+            got = c.refinePoint(P, "T", psi=None)
+        except Exception as e:  # noqa
+            got = e
+        ctx.oblige(TRUE(got is marks["newton"]), "a contour whose psi value is %r (%s) is refined (only psival None is not)" % (pv, type(pv).__name__))
     c.psival = None
     ctx.oblige(TRUE(c.refinePoint(P, "T", psi=None) is P), "no psival: point returned unchanged")
 
